@@ -82,6 +82,8 @@ type Enc struct {
 	curFn       string
 	globalsUsed map[string]bool
 	implQueries []implQuery
+	allocSites  []allocSite
+	UsedTypeInv map[string]bool
 }
 
 type deferRec struct {
@@ -116,7 +118,7 @@ type retRec struct {
 func NewEnc(p *Program, top *ssa.Function) *Enc {
 	e := &Enc{C: smt.NewCtx(), P: p, Top: top, hsorts: map[string]*smt.Sort{}, init: map[string]*smt.Term{},
 		Inlined: map[string]bool{}, UsedSpecs: map[string]bool{}, UsedExtern: map[string]bool{}, safetyN: map[string]int{},
-		ghostDecl: map[string]*smt.Sort{}}
+		ghostDecl: map[string]*smt.Sort{}, UsedTypeInv: map[string]bool{}, globalsUsed: map[string]bool{}}
 	return e
 }
 
@@ -257,10 +259,10 @@ func (e *Enc) wellFormed(v *smt.Term, t types.Type, st *State) *smt.Term {
 			c.Implies(c.Not(isnil), tagged),
 			c.Cmp("bvult", e.ptrIdx(v), e.bv64(1<<62)))
 	case *types.Slice:
-		lim := e.bv64(1 << 62)
+		lim := e.bv64(1 << 40) // no slice holds 2^40 or more elements (listed assumption)
 		obj := e.slObj(v)
 		isnil := c.Eq(obj, e.bv64(0))
-		return c.And(c.Cmp("bvule", e.slLen(v), e.slCap(v)), c.Cmp("bvult", e.slCap(v), lim), c.Cmp("bvult", e.slOff(v), lim),
+		return c.And(c.Cmp("bvule", e.slLen(v), e.slCap(v)), c.Cmp("bvult", e.slCap(v), lim), c.Cmp("bvult", e.slOff(v), e.bv64(1<<62)),
 			c.Cmp("bvule", obj, alloc),
 			c.Implies(isnil, c.Eq(e.slCap(v), e.bv64(0))),
 			c.Implies(c.Not(isnil), c.Eq(c.Select(e.objTypeHeap(st), obj), e.objTag(u.Elem()))))
@@ -464,6 +466,13 @@ func (e *Enc) posOf(p token.Pos) string {
 }
 
 func (e *Enc) oblige(fr *Frame, st *State, kind, label, text string, pos token.Pos, cond *smt.Term, props []string) {
+	// a conjunction is split: each conjunct is its own (named) obligation
+	if cond.Op == "and" && kind != "safety" && label != "" {
+		for i, a := range cond.Args {
+			e.oblige(fr, st, kind, fmt.Sprintf("%s.%d", label, i+1), fmt.Sprintf("%s [conjunct %d]", text, i+1), pos, a, props)
+		}
+		return
+	}
 	if cond.IsTrue() || st.Reach.IsFalse() {
 		// trivially discharged at generation time: still count it
 		e.Obls = append(e.Obls, &Obligation{ID: e.oblID(fr, kind, label), Kind: kind, Props: props, Text: text, Func: fnName(e.Top),
